@@ -89,6 +89,27 @@ func evalURIPair(c CaseURIPair) Result {
 			return viol("URIParseCmp hands back r2 = %+v, ParseURI(b) = %+v%s", r2, ub, ctx)
 		}
 	}
+	// the same two URIs living inside larger buffers (relocated there with AdjustOffs, e.g. a Contact value and a
+	// request line): the comparison is about the URIs, not about what surrounds them
+	{
+		preA, preB := []byte("Contact: \"x\" <"), []byte("INVITE ")
+		bufA := append(append(append([]byte{}, preA...), a...), ">;expires=60;q=0.5\r\n"...)
+		bufB := append(append(append([]byte{}, preB...), b...), " SIP/2.0\r\nVia: SIP/2.0/UDP h;branch=z9hG4bKx\r\n"...)
+		ea, eb := ua, ub
+		if ea.AdjustOffs(sipsp.PField{Offs: sipsp.OffsT(len(preA)), Len: sipsp.OffsT(len(a))}) &&
+			eb.AdjustOffs(sipsp.PField{Offs: sipsp.OffsT(len(preB)), Len: sipsp.OffsT(len(b))}) {
+			for f := 0; f < 64; f++ {
+				if got := sipsp.URICmp(&ea, bufA, &eb, bufB, sipsp.URICmpFlags(f)); got != ab[f] {
+					return viol("flags %#x: URICmp on the stand-alone URIs = %v, on the same URIs relocated into %s and %s = %v%s", f, ab[f], B(bufA), B(bufB), got, ctx)
+				}
+			}
+			if got := sipsp.URICmpShort(&ea, bufA, &eb, bufB, 0); got != sipsp.URICmpShort(&ua, a, &ub, b, 0) {
+				return viol("URICmpShort differs between the stand-alone and the relocated URIs (%v)%s", got, ctx)
+			}
+		} else {
+			return viol("AdjustOffs refused a span of exactly the URI length%s", ctx)
+		}
+	}
 	sh := sipsp.URICmpShort(&ua, a, &ub, b, 0)
 	if ab[0] && !sh {
 		return viol("URICmp says equal but URICmpShort says different%s", ctx)
@@ -438,6 +459,10 @@ func evalReloc(c CaseReloc) Result {
 				return viol("AdjustOffs(%d,%d): %s length changed from %d to %d\nuri=%s", off, span, p.name, p.a.Len, p.b.Len, c.U)
 			}
 			if p.a.Len == 0 {
+				// present but empty (e.g. the parameters of "sip:h;"): its position moves with the rest
+				if p.a.Offs != 0 && int(p.b.Offs)-off != int(p.a.Offs)-int(u.Scheme.Offs) {
+					return viol("AdjustOffs(%d,%d): the empty %s component stays at offset %d (was %d relative to the URI start %d)\nuri=%s", off, span, p.name, p.b.Offs, p.a.Offs, u.Scheme.Offs, c.U)
+				}
 				continue
 			}
 			if int(p.b.Offs)+int(p.b.Len) > len(target) || !bytes.Equal(p.b.Get(target), p.a.Get(in)) || int(p.b.Offs)-off != int(p.a.Offs)-int(u.Scheme.Offs) {
